@@ -20,7 +20,7 @@ RULE = ('molecules of 1..12 fragments on a random reference: random overlaps bet
 ASSUMPTIONS = ['fragments are forced into one molecule through the internal add so the equality rules do not filter the input',
                'each fragment with a read 1 contributes one call per position: the higher-quality mate; equal quality with different bases, or N: no vote']
 MIN_NONTRIVIAL = {'quick': 300, 'thorough': 30000}
-REQUIRED_MONITORS = ['ret:get_consensus', 'ret:get_consensus_dove_safe', 'oracle:positions_compared', 'oracle:tied_positions', 'meta:permutations', 'meta:duplications', 'history:repeated_requests', 'history:grown_molecule', 'lib:deep_molecules', 'ret:get_consensus_with_probs_and_obs']
+REQUIRED_MONITORS = ['ret:get_consensus', 'ret:get_consensus_dove_safe', 'oracle:positions_compared', 'oracle:tied_positions', 'meta:permutations', 'meta:duplications', 'history:repeated_requests', 'history:grown_molecule', 'lib:deep_molecules', 'ret:get_consensus_with_probs_and_obs', 'ret:get_consensus_base']
 SHARD_TIMEOUT = {'quick': 900, 'thorough': 5400}
 REF_LEN = 400
 
@@ -75,12 +75,13 @@ def make_frag_spec(r, ref, fid, hot, stacked=False):
             r2s = r2e - l2
     r1s, r2s = max(0, r1s), max(0, r2s)
     qmode = r.choice(['flat_equal', 'random', 'r1_better', 'r2_better'])
+    flat_q = r.choice([30, 30, 30, 0])
 
     def quals(n, who):
         if qmode == 'flat_equal':
-            return [30] * n
+            return [flat_q] * n
         if qmode == 'random':
-            return [r.choice([10, 20, 30, 30, 37]) for _ in range(n)]
+            return [r.choice([10, 20, 30, 30, 37, 0, 0, 1]) for _ in range(n)]      # phred 0 is a quality like any other
         if (qmode == 'r1_better') == (who == 1):
             return [37] * n
         return [20] * n
@@ -267,6 +268,21 @@ def run_case(case):
             acc.violate('consensus-changes-when-every-fragment-is-duplicated', f'duplicating every fragment changes the consensus (dove_safe={dove})', wit)
         if ties or disagree:
             acc.sigs.add(f"{case['i']}/{dove}")
+    # ---- the per-position accessor answers like the consensus (None where the consensus has no call)
+    exp_plain = oracle(frags, False)[0]
+    m0 = build(range(n))
+    probe = sorted(set(list(exp_plain)[:12] + r.sample(range(60, 260), 8) + hot))
+    for p_ in probe:
+        try:
+            g_ = m0.get_consensus_base('chr1', p_)
+        except Exception as ex:
+            acc.violate('get_consensus_base-raised:' + type(ex).__name__, f'get_consensus_base(chr1, {p_}) raised {ex!r}', wit)
+            break
+        acc.count('ret:get_consensus_base')
+        if g_ != exp_plain.get(p_):
+            acc.violate('get_consensus_base-differs-from-majority', f'get_consensus_base(chr1, {p_}) returned {g_!r}, the strict majority of the fragment calls is '
+                                                                    f'{exp_plain.get(p_)!r}', dict(wit, position=p_))
+            break
     # ---- histories on the same objects: alternate the two kinds of request on one molecule, share the Fragment objects between two
     # molecules (other order / every fragment twice), and ask again after the molecule has grown
     exps = {dove: oracle(frags, dove)[0] for dove in (False, True)}
